@@ -104,7 +104,7 @@ def wrapper_for(name, variant=0):
     src = "from exo.platforms.x86 import *\n" + "\n".join(lines) + "\n"
     g = exec_source(src)
     w = g[f"w_{name}"]
-    info = {"sizes": sizes, "src": "\n".join(lines), "is_div": "div" in name, "prefix": any(s in ("bound", "N") for s in sizes), "place": place}
+    info = {"sizes": sizes, "src": "\n".join(lines), "is_div": "div" in name, "prefix": any(s in ("bound", "N") for s in sizes), "place": place, "call_pos": len(pre), "n_post": len(post)}
     _cache[key] = (w, info)
     return w, info
 
